@@ -20,9 +20,41 @@ def desc_lists(values, max_len, min_len=1):
     return out
 
 
+_TEMPLATES = {}
+
+
+def _template(PcfgGrammar):
+    """A really constructed grammar object (minimal on-disk ruleset through the real __init__), deep-copied for every in-memory
+    ruleset, so that attributes a constructor may set up (caches, counters) exist and start empty."""
+    if PcfgGrammar not in _TEMPLATES:
+        tmpl = None
+        try:
+            import contextlib
+            import io
+            import shutil
+            import tempfile
+            d = tempfile.mkdtemp(prefix='pcfgmc-tmpl-', dir='/dev/shm' if os.path.isdir('/dev/shm') else None)
+            try:
+                write_ruleset(d, {'D': {1: [('1', 1.0)]}, 'grammar': [('D1', 1.0)], 'prince': [('D1', 1.0)]})
+                sink = io.StringIO()
+                with contextlib.redirect_stdout(sink), contextlib.redirect_stderr(sink):
+                    tmpl = PcfgGrammar('t', d, '4.7', None)
+            finally:
+                shutil.rmtree(d, ignore_errors=True)
+        except Exception:
+            tmpl = None
+        _TEMPLATES[PcfgGrammar] = tmpl
+    return _TEMPLATES[PcfgGrammar]
+
+
 def mem_grammar(PcfgGrammar, types, base):
     """types: {name: [prob, ...] or [(prob, [values])...]}; base: [(prob, [names...]), ...]"""
-    g = object.__new__(PcfgGrammar)
+    tmpl = _template(PcfgGrammar)
+    if tmpl is not None:
+        import copy
+        g = copy.deepcopy(tmpl)
+    else:
+        g = object.__new__(PcfgGrammar)
     gr = {}
     for name, groups in types.items():
         lst = []
